@@ -86,6 +86,21 @@ func (d *Decoder) ReadOptionFlag() (bool, error) {
 	return false, fmt.Errorf("invalid option discriminator %d", flag)
 }
 
+// ReadBool reads a boolean, encoded as the octet 0 or 1; other octets are rejected.
+func (d *Decoder) ReadBool() (bool, error) {
+	b, err := d.buf.ReadByte()
+	if err != nil {
+		return false, err
+	}
+	switch b {
+	case 0:
+		return false, nil
+	case 1:
+		return true, nil
+	}
+	return false, fmt.Errorf("invalid boolean %d", b)
+}
+
 func (d *Decoder) ReadLegnthFlag() (byte, error) {
 	cLog(Cyan, "Reading length flag")
 	firstByte, err := d.buf.ReadByte()
